@@ -122,7 +122,12 @@ From RV Require Import Wire.WireModel Resolver.ValidateModel Resolver.TransportM
    concatenations in resolve_combined_recursive / resolve_with_nameserver_response preserve the shape
    because the filter CONSTRUCTS a chain for every reply (C06_filter_chain_ok) and because the
    records "combined" from a Partial local result are none unless the question is ANY
-   (C10_partial_only_for_any).  Hypotheses about the two local sources as in C10_local_chain_ok, for
+   (C10_partial_only_for_any).  Where cut_at_local_authority (fix b2bc3c2, C01) cuts a reply, the
+   records kept are the chain from the question name to the owner of the first record cut
+   ([cut_chain], Resolver/CutFacts.v: a cut inside the CNAMEs ends at the previous target; a cut at
+   the final records is at the first of them, all owned by the last target) and the nested
+   resolution starts at that owner -- the same concatenation as for a CNAME response; likewise in
+   forwarding mode.  Hypotheses about the two local sources as in C10_local_chain_ok, for
    every cache state. *)
 Theorem C10_recursive_chain_ok :
   forall (cache : Type) (cache_get : cache -> dname -> N -> list rr) (cache_insert_all : cache -> list rr -> cache)
